@@ -142,6 +142,7 @@ class Slot:
         self.param_spec = None
         self.fitted = None  # dataset id or None (unspecified)
         self.dets = {}
+        self.cutbuf = None  # the user's preallocated cuts buffer, refilled in place
 
 
 def _slot_attr(name):
@@ -376,6 +377,20 @@ class Sim:
             ev["tag"] = "bad_cuts"
             return
         arg = cuts[0] if (st.get("as1d") and len(cuts) == 1) else cuts
+        cdt = st.get("cuts_dtype")
+        if cdt and cdt != "int64" and int(cuts.max()) <= np.iinfo(cdt).max:
+            # the same intervals in a narrower integer type
+            arg = arg.astype(cdt)
+            self.probe("narrow_cuts_dtype")
+        if st.get("buf"):
+            # the user's preallocated buffer: refilled in place and handed over again
+            b = self.cur.cutbuf
+            if b is not None and b.shape == arg.shape and b.dtype == arg.dtype:
+                b[...] = arg
+                arg = b
+                self.probe("cuts_buffer_reused")
+            else:
+                self.cur.cutbuf = arg = arg.copy()
         fp = fingerprint_arg(arg)
         self.perm_rng = np.random.default_rng(st["perm"]) if st.get("perm") is not None else None
         refs = [ref_row(self.kind, self.param_ref, X, int(s), int(e)) for s, e in cuts]
@@ -463,8 +478,27 @@ class Sim:
 # --------------------------------------------------------------------------------------
 # generation
 # --------------------------------------------------------------------------------------
+def _scale_param(ps, kind, sc):
+    """The same parameter at another scale of the data: means times sc, variances and
+    covariances times sc**2 (small-scale data have small covariances)."""
+
+    def mul(x, f):
+        if isinstance(x, dict) and "__arr__" in x:
+            return {"__arr__": (np.asarray(x["__arr__"], dtype=float) * f).tolist(), "dtype": "float64"}
+        return float(x) * f
+
+    if ps is None:
+        return None
+    if kind == "l2":
+        return mul(ps, sc)
+    m, v = ps["__tuple__"]
+    return {"__tuple__": [mul(m, sc), mul(v, sc * sc)]}
+
+
 def gen_param(rng, kind, p):
     ps = _gen_param(rng, kind, p)
+    if ps is not None and rng.random() < 0.2:
+        ps = _scale_param(ps, kind, float(rng.choice([1e-4, 1e-3, 1e-2, 50.0])))
     c = rng.random()
     if ps is not None and c < 0.3:
         # the same parameter values handed over in another valid form: Python lists
@@ -514,12 +548,14 @@ def _gen_param(rng, kind, p):
 
 def gen_X(rng, nmax, shape=None):
     if shape is None:
-        n = int(rng.integers(1, nmax + 1))
-        p = int(rng.integers(1, 4))
+        n = int(rng.integers(1, nmax + 1)) if nmax <= 60 else int(rng.integers(90, nmax + 1))
+        p = int(rng.integers(1, 4)) if rng.random() < 0.9 else int(rng.integers(4, 7))
     else:
         n, p = shape
-    sc = float(rng.choice([1e-3, 1, 1, 30, 1e3]))
+    sc = float(rng.choice([1e-4, 1e-3, 1, 1, 1, 30, 1e3]))
     off = float(rng.choice([0, 0, 5, -200, 1e3]))
+    if sc < 1e-2 and rng.random() < 0.7:
+        off = 0.0
     X = rng.normal(size=(n, p)) * sc + off
     if p > 1 and rng.random() < 0.2:
         # columns of very different magnitude
@@ -586,6 +622,8 @@ def _gen_step(rng, sim, cfg, datasets):
     if n < ms:
         return {"op": "fit", "d": int(rng.integers(len(datasets))), "container": "ndarray", "dtype": "float64"}
     k = int(rng.integers(1, cfg["max_batch"] + 1))
+    if cfg.get("p_buf", 0.0) and sim.cur.cutbuf is not None and sim.cur.cutbuf.ndim == 2 and rng.random() < 0.7:
+        k = len(sim.cur.cutbuf)  # a preallocated buffer keeps its length
     cuts = []
     prev = [key for key in sim.answers if key[0] == sim.fitted and key[1] == sim.version.get(sim.fitted, 0)]
     for _ in range(k):
@@ -605,6 +643,11 @@ def _gen_step(rng, sim, cfg, datasets):
         cuts[j] = [[cuts[j][1], cuts[j][0]], [cuts[j][0], n + 2], [-1, cuts[j][1]]][int(rng.integers(3))]
     if len(cuts) == 1 and rng.random() < 0.5:
         st["as1d"] = True
+    c = rng.random()
+    if c < 0.18:
+        st["cuts_dtype"] = str(rng.choice(["int32", "int32", "int16", "uint16", "int8", "uint8", "uint32"]))
+    if rng.random() < cfg.get("p_buf", 0.0):
+        st["buf"] = True
     if cfg["permute"]:
         st["perm"] = int(rng.integers(1 << 30))
     if "interrupt" in cfg["faults"] and rng.random() < cfg["p_fault"]:
@@ -623,7 +666,14 @@ def gen_world(rng, tier):
         "faults": ["interrupt"] if rng.random() < 0.5 else [],
         "p_fault": float(rng.uniform(0.05, 0.25)),
         "instances": int(rng.choice([1, 1, 2, 2, 3])),
+        "p_buf": float(rng.choice([0.0, 0.0, 0.3, 0.8])),
     }
+    if rng.random() < (0.1 if thorough else 0.06):
+        # long series and large batches: code paths that switch on beyond a size
+        cfg["nmax"] = int(rng.choice([150, 300]))
+        cfg["max_batch"] = int(rng.choice([64, 300, 700]))
+        cfg["nsteps"] = min(cfg["nsteps"], 14)
+        cfg["det_runs"] = False
     datasets = []
     did = 0
     for f in range(int(rng.integers(1, 3))):
@@ -741,10 +791,56 @@ def run_exhaustive(seed, idx, tier, pristine=None):
     return res
 
 
+def scale_tasks(tier):
+    ns = (200,) if tier != "thorough" else (200, 300, 370)
+    return [{"kind": k, "mode": m, "p": p, "n": n} for k in ("l2", "gv", "gc") for m in (0, 1) for n in ns for p in ((1, 3) if n == 200 else (2,))]
+
+
+def run_scale(seed, idx, tier, pristine=None):
+    """Long series: every admissible interval in ONE batch (20 100 rows for n = 200,
+    68 635 for n = 370), then batches in narrow integer types and in a reused buffer.
+    Reaches code that switches on beyond a batch or series size (blocking, chunking,
+    de-duplication keys that overflow)."""
+    tasks = scale_tasks(tier)
+    t = tasks[idx % len(tasks)]
+    rng = core.make_rng(seed, "C01", 2 * 10**6 + idx)
+    kind, p, n = t["kind"], t["p"], t["n"]
+    X = gen_X(rng, 0, shape=(n, p))
+    param = None
+    while t["mode"] == 1 and param is None:
+        param = gen_param(rng, kind, p)
+    ms = min_size(kind, p)
+    cuts = [[s, e] for s in range(n) for e in range(s + ms, n + 1)]
+    steps = [{"op": "new", "param": param}, {"op": "fit", "d": 0, "container": "ndarray", "dtype": "float64"}]
+    steps.append({"op": "eval", "cuts": cuts, "perm": int(rng.integers(1 << 30))})
+    order = rng.permutation(len(cuts))
+    for dt in ("int16", "uint16", "int32", "uint8", "int64"):
+        sub = [cuts[j] for j in order[: int(rng.integers(40, 400))]]
+        order = rng.permutation(len(cuts))
+        if dt == "uint8":
+            sub = [c for c in cuts if c[1] <= 255]
+            sub = [sub[j] for j in rng.permutation(len(sub))[:300]]
+        steps.append({"op": "eval", "cuts": sub, "cuts_dtype": dt})
+    k = 128
+    for _ in range(3):
+        order = rng.permutation(len(cuts))
+        steps.append({"op": "eval", "cuts": [cuts[j] for j in order[:k]], "buf": True})
+    trace = {"property": "C01", "seed": int(seed), "run": int(idx), "tier": "scale", "kind": kind, "config": {"instances": 1, "scale": t}, "datasets": [{"id": 0, "family": 0, "p": p, "values": X.tolist()}], "steps": steps}
+    res = replay(trace)
+    res["signature"] = core.digest(["scale", t])
+    res["stats"].setdefault("probes", {})["scale_interval_rows"] = len(cuts)
+    return res
+
+
 def extra_checks(seed, tier, args):
     from histsim import runner
 
     tasks = exhaustive_tasks(tier)
     res = runner.run_batch("C01", seed, tier, list(range(len(tasks))), workers=args.workers, per_run_guard=300, chunk=4, fn="run_exhaustive")
+    ktasks = scale_tasks(tier)
+    resk = runner.run_batch("C01", seed, tier, list(range(len(ktasks))), workers=args.workers, per_run_guard=900, chunk=1, fn="run_scale")
+    n_rows = sum(r.get("stats", {}).get("probes", {}).get("scale_interval_rows", 0) for r in resk if "stats" in r)
     n_int = sum(r.get("stats", {}).get("probes", {}).get("exhaustive_interval_cases", 0) for r in res if "stats" in r)
-    return res, {"exhaustive_interval_space": {"tasks": len(tasks), "intervals": int(n_int), "complete": True, "what": "for each cost x {optimal, fixed, fixed per-column / matrix} x p in 1..3 x n in {5, 8} (thorough: also 12, 16): every admissible interval, as one batch under a permuted prange, reversed, shuffled, and as singletons (2-D and 1-D)"}}
+    res = res + resk
+    return res, {"scale_sweep": {"tasks": len(ktasks), "rows_in_single_batches": int(n_rows), "what": "for each cost x {optimal, fixed} x (n = 200, p in {1, 3}; thorough also n = 300, 370 with p = 2): every admissible interval in one batch (20 100 to 68 635 rows), then sub-batches with the cuts in int16 / uint16 / int32 / uint8 and in one preallocated buffer refilled in place; all rows judged by the reference and against each other"},
+        "exhaustive_interval_space": {"tasks": len(tasks), "intervals": int(n_int), "complete": True, "what": "for each cost x {optimal, fixed, fixed per-column / matrix} x p in 1..3 x n in {5, 8} (thorough: also 12, 16): every admissible interval, as one batch under a permuted prange, reversed, shuffled, and as singletons (2-D and 1-D)"}}
